@@ -75,6 +75,14 @@ func flight5ClientAuthPackets(
 	if err != nil {
 		return nil, &alert.Alert{Level: alert.Fatal, Description: alert.InsufficientSecurity}, err
 	}
+	// CertificateVerify carries the scheme as one hash byte and one signature
+	// byte. A scheme that does not fit (RSA-PSS, the only one an RSA key may
+	// use in DTLS 1.3) cannot be sent: tell the peer now, or the flight fails
+	// when it is marshalled and the peer is left to its timeout.
+	if signatureScheme.Hash > 0xFF || signatureScheme.Signature > 0xFF {
+		return nil, &alert.Alert{Level: alert.Fatal, Description: alert.HandshakeFailure},
+			dtlserrors.ErrInvalidSignHashAlgorithm
+	}
 
 	return []*dtlsflight.Packet{
 		HandshakePacket(&handshake.MessageCertificate13{
